@@ -59,7 +59,17 @@ pub fn check_suspend(case: &C19Case, tr: &Trace) -> Result<&'static str, Fail> {
     let peer = if who == p.from { p.to } else { p.from };
     // up to two PDUs handed over before the suspension may still be in the transport pipeline
     let lo = t_susp + 2 * sc.tau_ms + 2;
-    let hi = t_resume.unwrap_or(tr.end_ms);
+    // the suspension belongs to the transaction that was suspended: when that one ends (e.g. on a checksum failure found
+    // while suspended) a straggler may start a second receive transaction for the same id, which is not suspended
+    let t_term_after = tr
+        .inds_of(who, id)
+        .iter()
+        .filter_map(|r| match &r.ind {
+            Indication::Report(rep) if rep.state == cfdp_core::transaction::TransactionState::Terminated && r.t >= t_susp => Some(r.t),
+            _ => None,
+        })
+        .min();
+    let hi = t_resume.unwrap_or(tr.end_ms).min(t_term_after.unwrap_or(u64::MAX));
     let owed_before = tr.terminated_at(who, id).map(|t| t > t_susp).unwrap_or(true);
     for d in tr.emitted(who, peer) {
         if d.t > lo && d.t < hi {
@@ -173,6 +183,7 @@ pub fn run(ctx: &mut Ctx) {
     ctx.rule = "family 'silence': both modes x closure x 2 NAK procedures x sizes {0,33,100,200}; the entity to be suspended has timers of 1 s and limit 2, its peer 400 s and limit 4; Suspend at the sender \
 or the receiver when the link sees datagram k of either direction, every k of the baseline (exhaustive), Resume 500 ms, 1, 3, 10 or 100 s after the Suspended indication. family 'completion': \
 acknowledged and unacknowledged mode, sizes {33,100,200}, timers 3 s limit 4 on both sides, suspension 0, 500, 3000 or 6000 ms, and in acknowledged mode additionally one lost datagram at every ordinal of either direction. \
+family 'sampled': the general scenario generator (both modes, every configuration, up to 3 faults) with a suspension of 0..8 s at either entity at any datagram, judged for silence and timer faults only. \
 Non-trivial = the suspend was processed while the transaction was still active at that entity; distinct by scenario."
         .into();
     ctx.assumptions = vec![
@@ -274,5 +285,25 @@ Non-trivial = the suspend was processed while the transaction was still active a
     }
     ctx.section = "completion-with-one-loss".into();
     ctx.drive_list(&part, cases, ctx.tier == Tier::Thorough);
+    // sampled: any configuration and fault script of the general generator, a suspension of 0..8 s at either entity at any
+    // datagram; only the clauses that hold whatever the link does are judged here (silence, no timer fault while suspended,
+    // no limit fault on suspended time) - completion under loss is the subject of the family above
+    use proptest::prelude::*;
+    let strat = (scenario_strategy(Modes::Both, 3), any::<bool>(), any::<bool>(), 0u32..14, 0u64..3, prop_oneof![0u64..50, 0u64..8000]).prop_map(
+        |(mut sc, at_recv, dir, k, d, len)| {
+            let who = if at_recv { 1 } else { 0 };
+            let trigger = if dir {
+                Trigger::OnOrdinal { from: 0, to: 1, ordinal: k, delay_ms: d }
+            } else {
+                Trigger::OnOrdinal { from: 1, to: 0, ordinal: k % 5, delay_ms: d }
+            };
+            add_suspend_resume(&mut sc, who, trigger, len);
+            sc.horizon_ms += 10_000;
+            C19Case { sc, expect_success: false, peer_long_timers: false }
+        },
+    );
+    ctx.section = "sampled-any-configuration".into();
+    let n = ctx.tier.pick(20_000u64, 300_000);
+    ctx.drive_proptest(&part, strat, n, 200);
     ctx.section.clear();
 }
